@@ -61,6 +61,7 @@ func (c C19) Run(t *tape.Tape, opt core.RunOpt) (res core.Result) {
 		return
 	}
 	w.ResolverEvents = t.Bool(1, 2)
+	w.BadEvents = t.Bool(1, 2)
 	topics := []string{"a", "b", "c"}
 	topic := func() string {
 		if t.Bool(1, 6) {
@@ -141,6 +142,7 @@ func (c C19) Run(t *tape.Tape, opt core.RunOpt) (res core.Result) {
 			var failed []int
 			var gotClean []int
 			bad := ""
+			resolveErrs := 0 // selections applied to an event whose msg field fails to resolve
 			for _, e := range env.log {
 				p := strings.SplitN(e.Detail, "|", 3)
 				sid, _ := strconv.Atoi(p[0])
@@ -151,7 +153,11 @@ func (c C19) Run(t *tape.Tape, opt core.RunOpt) (res core.Result) {
 					if p[1] == "fail" {
 						failed = append(failed, sid)
 					}
-					if want := workload.SubSelections[w.Subs[sid].SelIndex].Expect(n); len(p) < 3 || p[2] != want {
+					want, rerr := workload.ExpectFor(w.Subs[sid].SelIndex, n, w.BadEvents && workload.BadEvent(n))
+					if rerr {
+						resolveErrs++
+					}
+					if len(p) < 3 || p[2] != want {
 						bad = fmt.Sprintf("subscriber %d received %s, expected %s", sid, e.Detail, want)
 					}
 				case "Cleanup":
@@ -170,7 +176,7 @@ func (c C19) Run(t *tape.Tape, opt core.RunOpt) (res core.Result) {
 			}
 			if viaMut {
 				wantResp := `{"data":{"post":` + strconv.Itoa(len(exp)) + `}}`
-				if len(failed) > 0 {
+				if len(failed) > 0 || resolveErrs > 0 {
 					if !strings.Contains(out, `"errors"`) {
 						fail("publish_error_missing", "a delivery failed but the mutation response carries no error: %s", out)
 						return
@@ -184,10 +190,13 @@ func (c C19) Run(t *tape.Tape, opt core.RunOpt) (res core.Result) {
 					fail("publish_count_wrong", "publish(%q) reported %d, %d subscribers matched", tp, cnt, len(exp))
 					return
 				}
-				if perr != (len(failed) > 0) {
-					fail("publish_error_mismatch", "publish(%q): error=%v but failed deliveries=%v", tp, perr, failed)
+				if perr != (len(failed) > 0 || resolveErrs > 0) {
+					fail("publish_error_mismatch", "publish(%q): error=%v but failed deliveries=%v, selections that hit an unresolvable field=%d", tp, perr, failed, resolveErrs)
 					return
 				}
+			}
+			if resolveErrs > 0 {
+				res.Count("fault_event_field_failed_to_resolve", resolveErrs)
 			}
 			if len(failed) > 0 {
 				failedDelivery = true
